@@ -338,6 +338,17 @@ def main(ctx, args):
         for cmdkeys in ("\x01", "\x1d", "gd", "gf", "gl", "\x17]", "\x17gf", "\x17gl", "2\x01", "*"):
             corpus.append({"origin": "corpus/cursor-word", "vi": True, "cps": [ord(c) for c in ("%dG" % (i + 1)) + cmdkeys + "\x1b"], "size": (24, 80),
                            "file": words, "exinit": "", "k": -1})
+    # the autoindent buffer of insert mode (char ai[128] in led_input): indents that add up, line after line, to around and
+    # beyond its size, by typed blanks, by ^T, and under an already indented line
+    for a, b in ((60, 60), (70, 70), (100, 40), (126, 1), (126, 2), (127, 1), (127, 2), (128, 0), (128, 5), (200, 0), (64, 64), (1, 127)):
+        for blank in (" ", "\t"):
+            corpus.append({"origin": "corpus/autoindent", "vi": True, "cps": [ord(c) for c in "i" + blank * a + "x\n" + blank * b + "y\n" + blank * 3 + "z\x1b"],
+                           "size": (24, 80), "file": None, "exinit": "", "k": -1})
+            corpus.append({"origin": "corpus/autoindent", "vi": True, "cps": [ord(c) for c in "o" + blank * b + "y\n" + blank * 2 + "z\x1bO" + blank + "w\x1b"],
+                           "size": (24, 80), "file": blank * a + "indented\n", "exinit": "", "k": -1})
+    for n, tail in ((126, " x\ny"), (127, " x\ny"), (127, "\t\tx\n\ty\n z"), (130, "x\n y"), (100, " " * 40 + "x\n" + " " * 40 + "y")):
+        corpus.append({"origin": "corpus/autoindent", "vi": True, "cps": [ord(c) for c in "i" + "\x14" * n + tail + "\x1b"], "size": (24, 80),
+                       "file": None, "exinit": "", "k": -1})
     with ThreadPoolExecutor(NCPU) as ex:
         results = list(ex.map(lambda s: run_stream(ctx, s, safebin), streams + corpus))
     st = dict(streams=len(streams), ex_streams=sum(1 for s in streams if not s["vi"]), vi_streams=sum(1 for s in streams if s["vi"]),
